@@ -29,11 +29,13 @@ const (
 	VKVerr1               // bare *VerifyError, soft
 	VKWrap0               // wrapped *VerifyError, hard
 	VKWrap1               // wrapped *VerifyError, soft
+	VKJoin0               // *VerifyError (hard) inside a multi-error: errors.Join(context, ve)
+	VKJoin1               // *VerifyError (soft) inside a multi-error: fmt.Errorf("%w: %w", context, ve)
 	VKNilVerr             // a typed-nil *VerifyError inside the error interface: "no error" written the wrong way round
 	VKShared              // ONE package-level *VerifyError (hard) returned by every call, as header types with sentinel errors do
 )
 
-var VKNames = []string{"link", "ok", "plain", "verr0", "verr1", "wrap0", "wrap1"}
+var VKNames = []string{"link", "ok", "plain", "verr0", "verr1", "wrap0", "wrap1", "join0", "join1", "nilverr", "shared"}
 
 var (
 	ErrLink     = errors.New("vhdr: previous-hash link broken")
@@ -126,6 +128,10 @@ func scripted(vk uint8) error {
 		return fmt.Errorf("vhdr wrap: %w", &header.VerifyError{Reason: ErrScripted})
 	case VKWrap1:
 		return fmt.Errorf("vhdr wrap: %w", &header.VerifyError{Reason: ErrScripted, SoftFailure: true})
+	case VKJoin0:
+		return errors.Join(errors.New("vhdr: context"), &header.VerifyError{Reason: ErrScripted})
+	case VKJoin1:
+		return fmt.Errorf("%w: %w", errors.New("vhdr: context"), &header.VerifyError{Reason: ErrScripted, SoftFailure: true})
 	case VKNilVerr:
 		var ve *header.VerifyError
 		return ve
